@@ -907,7 +907,7 @@ macro_rules! v5_ack_parse_long_props {
     ($name:ident, $ty:ident, $fh:expr) => {
         #[kani::proof]
         #[kani::unwind(2)]
-        #[kani::stub(core::str::from_utf8, utf8_model)]
+        #[kani::stub(core::str::from_utf8, utf8_trusting)]
         fn $name() {
             let id: u16 = kani::any();
             kani::assume(id != 0);
